@@ -527,13 +527,19 @@ def _const_facts(fn_node, given=None):
     from ..normalize import single_assignments
 
     facts = dict(given or {})
-    for k, v in single_assignments(fn_node).items():
-        if isinstance(v, ast.Constant) and ("const:" + k) not in facts:
-            facts["const:" + k] = v.value
+    sa = single_assignments(fn_node)
+    for _round in range(4):  # through plain aliases of a constant local (a parameter bound to a parameter of the enclosing expansion)
+        for k, v in sa.items():
+            if ("const:" + k) in facts:
+                continue
+            if isinstance(v, ast.Constant):
+                facts["const:" + k] = v.value
+            elif isinstance(v, ast.Name) and ("const:" + v.id) in facts and (v.id in sa or ("const:" + v.id) in (given or {})):
+                facts["const:" + k] = facts["const:" + v.id]
     return facts
 
 
-def _stored_overwrites(ctx, K, fn, is_stored, new_names, facts0=None, depth=0, seen=None):
+def _stored_overwrites(ctx, K, fn, is_stored, new_names, facts0=None, depth=0, seen=None, ctxkey=""):
     """Statements `A[i] = v` / `A[i] op= v` on a feasible path of fn (normalised view; branches ruled out by constant modes dropped)
     where A is one of the stored arrays and v is computed from the values being added — looked for in fn and in the package functions
     that are handed a stored array and added values but could not be expanded in place.  [(view, statement)]"""
@@ -543,9 +549,9 @@ def _stored_overwrites(ctx, K, fn, is_stored, new_names, facts0=None, depth=0, s
     from ._c17_flow import Flow, key_of
 
     seen = seen if seen is not None else set()
-    if depth > 2 or id(fn.node) in seen:
+    if depth > 2 or (id(fn.node), ctxkey) in seen:
         return []
-    seen.add(id(fn.node))
+    seen.add((id(fn.node), ctxkey))
     v = ctx.view(fn)
     fl = Flow(v.node)
     rebound = {d.key for d in fl.defs if not d.scoped}
@@ -555,6 +561,66 @@ def _stored_overwrites(ctx, K, fn, is_stored, new_names, facts0=None, depth=0, s
 
     def added(e, env=None):
         return bool(fl.roots(e, env) & set(new_names))
+
+    def denoted(e, env, depth=0):
+        """functions of the package a callee expression may stand for: a local bound to one, a conditional expression between several
+        (the branch a constant mode rules out dropped), an entry of a literal dispatch table"""
+        from ..kinds import tv
+
+        if depth > 4:
+            return []
+        if isinstance(e, ast.Name):
+            r = ctx.p.resolve_name(v.module, e.id)
+            if r and r[0] == "func":
+                return [r[1]]
+            ds, _entry = fl.reaching(e, env)
+            if not ds:
+                # a name of another module (the body of a function of that module expanded here still names its neighbours)
+                return [f for m in ctx.p.modules.values() if m.in_scope for nm, f in m.functions.items() if nm == e.id]
+            out = []
+            for d in ds:
+                if d.strong and d.value is not None:
+                    val, venv = fl.value_of(d)
+                    out += denoted(val, venv, depth + 1)
+            return out
+        if isinstance(e, ast.IfExp):
+            t = tv(e.test, "_", facts)
+            return (denoted(e.body, env, depth + 1) if t is not False else []) + (denoted(e.orelse, env, depth + 1) if t is not True else [])
+        if isinstance(e, ast.Subscript) or (isinstance(e, ast.Call) and isinstance(e.func, ast.Attribute) and e.func.attr == "get" and e.args):
+            table = e.value if isinstance(e, ast.Subscript) else e.func.value
+            key = e.slice if isinstance(e, ast.Subscript) else e.args[0]
+            table = fl.resolve(table, env)[0] if key_of(table) is not None else table
+            if isinstance(table, ast.Dict):
+                kv = facts.get("const:" + key.id) if isinstance(key, ast.Name) else (key.value if isinstance(key, ast.Constant) else None)
+                vals = [x for k, x in zip(table.keys, table.values) if kv is None or not isinstance(k, ast.Constant) or k.value == kv]
+                if isinstance(e, ast.Call) and len(e.args) > 1 and (kv is None or not any(isinstance(k, ast.Constant) and k.value == kv for k in table.keys)):
+                    vals.append(e.args[1])
+                return [f for x in vals for f in denoted(x, env, depth + 1)]
+        return []
+
+    def via_callee(c, callee, drop, env):
+        ps = callee.params[1:] if drop else callee.params
+        bound = dict(zip(ps, c.args))
+        bound.update({k.arg: k.value for k in c.keywords if k.arg})
+        stored_ps = {q for q, a in bound.items() if key_of(a) is not None and is_stored(*fl.resolve(a, env)[:1], v, fl, fl.resolve(a, env)[1])}
+        new_ps = {q for q, a in bound.items() if q not in stored_ps and added(a, env)}
+        if not stored_ps or not new_ps:
+            return []
+        a = callee.node.args
+        names = [x.arg for x in a.posonlyargs + a.args]
+        defaults = dict(zip(names[len(names) - len(a.defaults):], a.defaults))
+        defaults.update({k.arg: d for k, d in zip(a.kwonlyargs, a.kw_defaults) if d is not None})
+        cf = {}
+        for q in set(names) | {k.arg for k in a.kwonlyargs}:
+            val = bound.get(q, defaults.get(q))
+            if val is not None and key_of(val) is not None:
+                val = fl.resolve(val, env)[0]
+            if isinstance(val, ast.Constant):
+                cf["const:" + q] = val.value
+        return [(v, c) for _x in _stored_overwrites(
+            ctx, callee.cls if callee.cls is not None else K, callee,
+            lambda e, _v, _fl=None, _env=None, sp=stored_ps: isinstance(e, ast.Name) and e.id in sp, new_ps, cf, depth + 1, seen,
+            f"{sorted(stored_ps)}|{sorted(new_ps)}|{sorted(cf.items())}")][:1]
 
     for node in feasible:
         st = node.ast
@@ -574,33 +640,12 @@ def _stored_overwrites(ctx, K, fn, is_stored, new_names, facts0=None, depth=0, s
                         hits.append((v, st))
         for c in [x for x in ast.walk(st) if isinstance(x, ast.Call)]:
             rc = _resolve_callee(ctx, K, v, c)
-            if rc is None or rc[0].node is fn.node:
-                continue
-            callee, drop = rc
-            ps = callee.params[1:] if drop else callee.params
-            bound = dict(zip(ps, c.args))
-            bound.update({k.arg: k.value for k in c.keywords if k.arg})
-            stored_ps = {q for q, a in bound.items() if key_of(a) is not None and is_stored(*fl.resolve(a, env)[:1], v, fl, fl.resolve(a, env)[1])}
-            new_ps = {q for q, a in bound.items() if q not in stored_ps and added(a, env)}
-            if not stored_ps or not new_ps:
-                continue
-            a = callee.node.args
-            names = [x.arg for x in a.posonlyargs + a.args]
-            defaults = dict(zip(names[len(names) - len(a.defaults):], a.defaults))
-            defaults.update({k.arg: d for k, d in zip(a.kwonlyargs, a.kw_defaults) if d is not None})
-            cf = {}
-            for q in set(names) | {k.arg for k in a.kwonlyargs}:
-                val = bound.get(q, defaults.get(q))
-                if val is not None and key_of(val) is not None:
-                    val = fl.resolve(val, env)[0]
-                if isinstance(val, ast.Constant):
-                    cf["const:" + q] = val.value
-            hits += [(v, c) for _x in _stored_overwrites(
-                ctx, callee.cls if callee.cls is not None else K, callee,
-                lambda e, _v, _fl=None, _env=None, sp=stored_ps: isinstance(e, ast.Name) and e.id in sp, new_ps, cf, depth + 1, seen)][:1]
+            targets = [rc] if rc is not None else [(f, False) for f in denoted(c.func, env)]
+            for callee, drop in targets:
+                if callee.node is fn.node:
+                    continue
+                hits += via_callee(c, callee, drop, env)
     return hits
-
-
 def rule_keep(ctx) -> RuleResult:
     import ast
 
@@ -872,7 +917,6 @@ def _array_valued_data_classes(p):
 def rule_sortall(ctx) -> RuleResult:
     import ast
 
-    from ..kinds import reach, tv
     from ..model import AnalysisError
     from ._c17_flow import Flow, key_of
 
@@ -923,13 +967,60 @@ def rule_sortall(ctx) -> RuleResult:
         head = [n for n in fl.g.nodes if n.kind == "fornext" and n.stmt is loop]
         store_nodes = set(fl.nodes_of(st.value))
         left_out = []
+
+        def is_child(e, env, cv):
+            """e is the child under test: the loop variable, possibly handed to a predicate's parameter / read into a local"""
+            r = fl.resolve(e, env)[0] if key_of(e) is not None else e
+            return isinstance(r, ast.Name) and r.id == cv or isinstance(e, ast.Name) and e.id == cv
+
+        def truth(t, env, cv, facts, depth=0):
+            """three-valued truth of a condition under `the child is an instance of class C`; conditions read into locals (the result of
+            an expanded predicate function, a named boolean) are followed to what they were computed from"""
+            if depth > 8:
+                return None
+            if isinstance(t, ast.Name):
+                r, renv = fl.resolve(t, env)
+                return truth(r, renv, cv, facts, depth + 1) if r is not t else None
+            if isinstance(t, ast.UnaryOp) and isinstance(t.op, ast.Not):
+                x = truth(t.operand, env, cv, facts, depth + 1)
+                return None if x is None else not x
+            if isinstance(t, ast.BoolOp):
+                vals = [truth(x, env, cv, facts, depth + 1) for x in t.values]
+                if isinstance(t.op, ast.And):
+                    return False if any(x is False for x in vals) else True if all(x is True for x in vals) else None
+                return True if any(x is True for x in vals) else False if all(x is False for x in vals) else None
+            if isinstance(t, ast.Call) and isinstance(t.func, ast.Name) and t.func.id == "isinstance" and len(t.args) == 2 and is_child(t.args[0], env, cv):
+                names = t.args[1].elts if isinstance(t.args[1], ast.Tuple) else [t.args[1]]
+                vals = [facts.get(n.attr if isinstance(n, ast.Attribute) else getattr(n, "id", None)) for n in names]
+                return True if any(x is True for x in vals) else False if all(x is False for x in vals) else None
+            return None
+
+        def reachable(starts, cv, facts):
+            seen_n, work = set(), list(starts)
+            while work:
+                n = work.pop()
+                if n in seen_n:
+                    continue
+                seen_n.add(n)
+                if n in head:
+                    continue
+                succ = n.succ
+                if n.kind == "test" and n.ast is not None:
+                    x = truth(n.ast, fl.env([n]), cv, facts)
+                    if x is True:
+                        succ = [(m, lab) for m, lab in succ if lab != "false"]
+                    elif x is False:
+                        succ = [(m, lab) for m, lab in succ if lab != "true"]
+                work += [m for m, _lab in succ]
+            return seen_n
+
         for C in classes:
             anc = {(c if isinstance(c, str) else c.name) for c in C.mro}
             facts = {nm: (nm in anc) for nm in every}
-            kept = all(tv(c, cv, facts) is not False for cv, c in comp_ifs)
+            kept = all(truth(c, fl.env(fl.nodes_of(c)) if fl.nodes_of(c) else {}, cv, facts) is not False for cv, c in comp_ifs)
             if kept:
                 starts = [m for h in head for m, lab in h.succ if lab == "loop"]
-                kept = bool(store_nodes & reach(fl.g, starts, var=var, facts=facts, stop=lambda n: n in head))
+                kept = bool(store_nodes & reachable(starts, var, facts))
             if not kept:
                 left_out.append(C.name)
         ok = not left_out
@@ -960,32 +1051,64 @@ def rule_clamp(ctx) -> RuleResult:
         "index in the Drillhole class it first passes a lower clamp (maximum / clip / where)",
         floor=1,
     )
-    dh = ctx.p.cls("Drillhole")
+    p = ctx.p
+    dh = p.cls("Drillhole")
 
     def holds(node):
         return any(isinstance(c, ast.Call) and call_name(c) == "searchsorted" for c in ast.walk(node))
 
-    roots_fns, _holders = _analysis_roots(ctx, dh, holds)
-    for fn in sorted(roots_fns, key=lambda f: f.node.lineno):
+    def clamp(e):
+        return isinstance(e, ast.Call) and call_name(e) in _LOWER_CLAMPS
+
+    # functions of the package that return such a lookup (a station-lookup helper, a method of a small record holding the table):
+    # name -> (returns a lookup, returns it without a lower clamp); a call to one is a lookup in its caller
+    lookups: dict = {}
+    for f in p.all_functions():
+        if f.name.startswith("__") or not holds(f.node):
+            continue
+        fv = ctx.view(f)
+        ffl = Flow(fv.node)
+
+        def minus(e, stop=None, ffl=ffl):
+            return isinstance(e, ast.BinOp) and isinstance(e.op, ast.Sub) and ffl.nodes_of(e) and \
+                any(isinstance(x, ast.Call) and call_name(x) == "searchsorted" for x in ffl.atoms(e.left, stop=clamp, skip_index=True))
+
+        any_, raw = False, False
+        for r in ast.walk(fv.node):
+            if isinstance(r, ast.Return) and r.value is not None and ffl.nodes_of(r.value):
+                any_ = any_ or any(minus(a) for a in ffl.atoms(r.value, skip_index=True))
+                raw = raw or any(minus(a) for a in ffl.atoms(r.value, stop=clamp, skip_index=True))
+        if any_:
+            old = lookups.get(f.name, (False, False))
+            lookups[f.name] = (True, old[1] or raw)
+
+    def calls_lookup(node):
+        return any(isinstance(c, ast.Call) and call_name(c) in lookups for c in ast.walk(node))
+
+    members = [f for f in dh.methods.values()] + [f for pr in dh.props.values() for f in (pr.getter, pr.setter) if f is not None and f.cls is dh]
+    for fn in sorted(members, key=lambda f: f.node.lineno):
+        if not (holds(fn.node) or calls_lookup(fn.node)):
+            # a private helper holding the lookup is expanded in its callers' views
+            if not any(isinstance(c, ast.Call) and isinstance(c.func, ast.Attribute) and c.func.attr.startswith("_") for c in ast.walk(fn.node)):
+                continue
         v = ctx.view(fn)
-        if not holds(v.node):
+        if not (holds(v.node) or calls_lookup(v.node)):
             continue
         fl = Flow(v.node)
 
-        def clamp(e):
-            return isinstance(e, ast.Call) and call_name(e) in _LOWER_CLAMPS
-
-        def lookup_minus(e):
-            """e is `<.. searchsorted(..) ..> - k`"""
+        def lookup_minus(e, raw_only=False):
+            """e is `<.. searchsorted(..) ..> - k`, or a call to a function of the package that returns one"""
+            if isinstance(e, ast.Call) and call_name(e) in lookups and not (isinstance(e.func, ast.Attribute) and isinstance(e.func.value, ast.Name) and e.func.value.id in ("np", "numpy")):
+                return lookups[call_name(e)][1] if raw_only else True
             return isinstance(e, ast.BinOp) and isinstance(e.op, ast.Sub) and fl.nodes_of(e) and \
-                any(isinstance(x, ast.Call) and call_name(x) == "searchsorted" for x in fl.atoms(e.left, stop=clamp))
+                any(isinstance(x, ast.Call) and call_name(x) == "searchsorted" for x in fl.atoms(e.left, stop=clamp, skip_index=True))
 
         bad, uses = [], 0
         for x in ast.walk(v.node):
             if not (isinstance(x, ast.Subscript) and fl.nodes_of(x)):
                 continue
-            raw = [a for a in fl.atoms(x.slice, stop=clamp) if lookup_minus(a)]
-            if any(lookup_minus(a) for a in fl.atoms(x.slice)):
+            raw = [a for a in fl.atoms(x.slice, stop=clamp, skip_index=True) if lookup_minus(a, raw_only=True)]
+            if any(lookup_minus(a) for a in fl.atoms(x.slice, skip_index=True)):
                 uses += 1
             if raw:
                 bad.append(x)
